@@ -265,6 +265,11 @@ func unitCase(rp UnitReplay) (*Case, error) {
 			obs = gOk(gLE(fromModel(le)))
 		}
 		cs.Coq = GApp("KLeDec", gLE(*rp.Prev), GBytes(rp.Buf), obs)
+		// oracle: a record that carries no fields (header bit 0 clear) decodes to an event without fields, whatever
+		// the reused struct held before
+		if !p && err == nil && len(rp.Buf) > 0 && rp.Buf[0]&1 == 0 && len(le.Fields) != 0 {
+			cs.Oracle = &Violation{Class: "logevent-stale-fields", Detail: fmt.Sprintf("record %x has no fields; Unmarshal into a struct holding fields %q delivered fields %q", rp.Buf, string(rp.Prev.Flds), string(le.Fields))}
+		}
 		cs.NonTrivial = p || err == nil
 	case "leiter":
 		it := &recIt{recs: rp.Recs}
@@ -502,10 +507,12 @@ func wpIterCase(rp UnitReplay, cs *Case) (*Case, error) {
 		init = gPanic
 	} else if ierr == nil {
 		init = gOk(GStr(w.Tags()))
+		fresh, served := true, 0
 		for _, op := range rp.Ops {
 			ops = append(ops, GBool(op))
 			if !op {
 				w.Next()
+				fresh = true
 				continue
 			}
 			var le model.LogEvent
@@ -516,11 +523,22 @@ func wpIterCase(rp UnitReplay, cs *Case) (*Case, error) {
 				obs = append(obs, gPanic)
 				break
 			}
-			if err != nil {
+			switch {
+			case err == io.EOF:
+				obs = append(obs, gOk("None"))
+				// oracle: the end of the packet may be announced only after as many events as the packet declares
+				if served < w.Recs() && cs.Oracle == nil {
+					cs.Oracle = &Violation{Class: "packet-iterator-eof-before-count", Detail: fmt.Sprintf("the packet declares %d events; Get reported io.EOF after serving %d", w.Recs(), served)}
+				}
+			case err != nil:
 				obs = append(obs, gErr)
-			} else {
+			default:
 				oks++
-				obs = append(obs, gOk(gLE(fromModel(le))))
+				if fresh {
+					served++
+					fresh = false
+				}
+				obs = append(obs, gOk("(Some "+gLE(fromModel(le))+")"))
 			}
 		}
 	}
